@@ -138,7 +138,7 @@ def walk_graphql_files(path: Path) -> Generator[Path, None, None]:
     """Find graphql files within given path."""
     extensions = (".graphql", ".graphqls", ".gql")
     for file_ in path.glob("**/*"):
-        if file_.suffix in extensions:
+        if file_.suffix in extensions and file_.is_file():
             yield file_
 
 
